@@ -13,6 +13,7 @@ import (
 	"runtime"
 	"runtime/debug"
 	"runtime/pprof"
+	"strconv"
 	"strings"
 	"syscall"
 
@@ -267,12 +268,16 @@ func (e *env) runCase(c Case) (res caseResult) {
 
 func workerMain() {
 	// memory cap for this process
-	lim := syscall.Rlimit{Cur: memCapBytes, Max: memCapBytes}
+	capBytes := uint64(memCapBytes)
+	if g, err := strconv.Atoi(os.Getenv("C11_MEMCAP_GB")); err == nil && g > 0 { // experiments only
+		capBytes = uint64(g) << 30
+	}
+	lim := syscall.Rlimit{Cur: capBytes, Max: capBytes}
 	if err := syscall.Setrlimit(syscall.RLIMIT_AS, &lim); err != nil {
 		fmt.Println("E cannot set RLIMIT_AS:", err)
 		os.Exit(3)
 	}
-	debug.SetMemoryLimit(3 << 30)
+	debug.SetMemoryLimit(int64(capBytes / 2))
 	vm.VerifRecoverHook = func(r any) { lastRaw = &rawPanic{val: r, stack: string(debug.Stack())} }
 	e := setupEnv()
 	if pf := os.Getenv("C11_PROF"); pf != "" {
